@@ -76,6 +76,10 @@ func c04Jobs(tier string) []string {
 	add("or=w,devs=e,mss=1460,ws=-1,psack=1,sack=1,pd=100+100+100,w=1460+3000,b=1", 1)
 	add("or=w,devs=e,mss=1460,ws=2,psack=1,sack=1,ts=1,pd=100+100+100,w=1460+3000,b=1", 1)
 	add("or=w,devs=e,mss=536,ws=-1,psack=1,sack=1,mtu=576,pd=50+50,w=536+1100,b=1", 1)
+	// the peer's MSS, not the local MTU, is the binding limit and every segment carries options
+	// (RFC 6691: the data length is reduced by the options the sender includes)
+	add("or=w,devs=kwhl,mss=536,ws=-1,ts=1,w=536+1100,b=1", 1)
+	add("or=w,devs=kwhle,mss=88,ws=2,ts=1,psack=1,sack=1,pd=50+50,w=88+300,b=1", 1)
 	// a loss and a path-MTU report in one history (retransmissions must respect the new MTU)
 	add(base+",mss=88,ws=-1,w=88+89+440,ptb=68,b=2", 16)
 	if tier == "thorough" {
